@@ -217,6 +217,45 @@ def _sub_sign(e: ast.AST, out_names: set[str], in_names: set[str]) -> int | None
     return None
 
 
+def check_identity_blocks(ctx: Ctx, prefix: str, want: int = -1) -> None:
+    """The identity term of dR/dy in the three matrix representations and for missing blocks."""
+    h = ctx.index.method(ASM, "JacobianAssembly", "_get_jacobian_generator")
+    con_c = cname(ASM, "JacobianAssembly", "_get_jacobian_generator")
+    cfg = cfg_of(h)
+    diag = [c for c in walk_body(h) if isinstance(c, ast.Call) and last_attr(c) in ("fill_diagonal", "setdiag")]
+    ctx.need(len(diag) == 2, "_get_jacobian_generator: dense and sparse diagonal updates not found")
+    for c in diag:
+        val = c.args[-1]
+        ok = isinstance(val, ast.BinOp) and isinstance(val.op, ast.Sub if want == -1 else ast.Add) and const_value(val.right) == 1 and isinstance(val.left, ast.Call) and last_attr(val.left) == "diagonal"
+        ctx.ob(f"{prefix}-identity", con_c, ok, "for a residual outputs - inputs the diagonal block of dR/dy is dY/dy - I: the diagonal must be decreased by 1", node=c)
+        # applied to a copy
+        tgt = dotted(c.args[0]) if last_attr(c) == "fill_diagonal" else dotted(c.func.value)
+        src = dotted(val.left.func.value) if isinstance(val, ast.BinOp) and isinstance(val.left, ast.Call) else None
+        cp = [s for s in stmts_of(h) if isinstance(s, ast.Assign) and dotted(s.targets[0]) == tgt and isinstance(s.value, ast.Call) and last_attr(s.value) in ("copy", "deepcopy")]
+        ctx.ob(f"{prefix}-identity-copy", con_c, len(cp) == 1 and tgt != src, "the identity must be subtracted on a copy: the discipline's own Jacobian must not be modified (a second linearisation would subtract it again)", node=c, stmt=f"{last_attr(c)} on a copy")
+    ops = [c for c in walk_body(h) if isinstance(c, ast.Call) and last_attr(c) == "shift_identity"]
+    ctx.ob(f"{prefix}-identity", con_c, len(ops) == 1, "operator Jacobians must be shifted by minus the identity", node=(ops or [h])[0], stmt="operator: shift_identity()")
+    si = ctx.index.method(JOP, "JacobianOperator", "shift_identity")
+    rets = [s for s in stmts_of(si) if isinstance(s, ast.Return)]
+    ok = len(rets) == 1 and isinstance(rets[0].value, ast.BinOp) and isinstance(rets[0].value.op, ast.Sub if want == -1 else ast.Add) and dotted(rets[0].value.left) == "self" and isinstance(rets[0].value.right, ast.Call) and "Identity" in (dotted(rets[0].value.right.func) or "")
+    ctx.ob(f"{prefix}-identity", cname(JOP, "JacobianOperator", "shift_identity"), ok, "shift_identity must return self - Identity", node=(rets or [si])[0])
+    eyes = [s for s in stmts_of(h) if isinstance(s, ast.Assign) and any(isinstance(c, ast.Call) and last_attr(c) in ("eye", "identity") for c in ast.walk(s.value))]
+    ok = len(eyes) == 1 and isinstance(eyes[0].value, ast.UnaryOp) and isinstance(eyes[0].value.op, ast.USub if want == -1 else ast.UAdd)
+    ctx.ob(f"{prefix}-identity", con_c, ok, "a missing diagonal block of the residual Jacobian is -I", node=(eyes or [h])[0], stmt="missing block: -eye")
+    # the -I terms only on residual rows of the same variable
+    for c in [*diag, *ops, *[e.value for e in eyes]]:
+        n = cfg.node_of(c)
+        lits = []
+        from gv.props.shared import conj_literals
+
+        for t, v in branch_conditions(cfg, n):
+            if v and cfg.kind[t] == "test":
+                lits += conj_literals(cfg.ast[t].test)
+        names = {norm_stmt(e) for pz, e in lits if pz}
+        ok = "is_residual" in names and ("function == variable" in names or "variable == function" in names)
+        ctx.ob(f"{prefix}-identity", con_c, ok, "the identity term belongs only to residual rows, on the block of the same variable", node=c, stmt=f"{norm_stmt(c, 40)} under is_residual and function == variable")
+
+
 def check_newton_parity(ctx: Ctx) -> None:
     # a. residual in the solver
     f = ctx.index.method(BS, "BaseMDASolver", "_compute_residuals")
@@ -258,43 +297,7 @@ def check_newton_parity(ctx: Ctx) -> None:
 
     s_b = {("out", "in"): 1, ("in", "out"): -1}.get((origin_b(dotted(subs_b[0].left)), origin_b(dotted(subs_b[0].right))))
     ctx.ob("6.5-residual-def", con_b, s_b is not None and s_b == s_a, "JacobianAssembly.residuals and BaseMDASolver._compute_residuals must define the residual with the same sign (outputs - inputs)", node=subs_b[0], slots={"solver": s_a, "assembly": s_b})
-    # c. identity term on the diagonal of dR/dy
-    h = ctx.index.method(ASM, "JacobianAssembly", "_get_jacobian_generator")
-    con_c = cname(ASM, "JacobianAssembly", "_get_jacobian_generator")
-    cfg = cfg_of(h)
-    diag = [c for c in walk_body(h) if isinstance(c, ast.Call) and last_attr(c) in ("fill_diagonal", "setdiag")]
-    ctx.need(len(diag) == 2, "_get_jacobian_generator: dense and sparse diagonal updates not found")
-    want = -1 if (s_a or 1) == 1 else 1
-    for c in diag:
-        val = c.args[-1]
-        ok = isinstance(val, ast.BinOp) and isinstance(val.op, ast.Sub if want == -1 else ast.Add) and const_value(val.right) == 1 and isinstance(val.left, ast.Call) and last_attr(val.left) == "diagonal"
-        ctx.ob("6.5-identity", con_c, ok, "for a residual outputs - inputs the diagonal block of dR/dy is dY/dy - I: the diagonal must be decreased by 1", node=c)
-        # applied to a copy
-        tgt = dotted(c.args[0]) if last_attr(c) == "fill_diagonal" else dotted(c.func.value)
-        src = dotted(val.left.func.value) if isinstance(val, ast.BinOp) and isinstance(val.left, ast.Call) else None
-        cp = [s for s in stmts_of(h) if isinstance(s, ast.Assign) and dotted(s.targets[0]) == tgt and isinstance(s.value, ast.Call) and last_attr(s.value) in ("copy", "deepcopy")]
-        ctx.ob("6.5-identity-copy", con_c, len(cp) == 1 and tgt != src, "the identity must be subtracted on a copy: the discipline's own Jacobian must not be modified (a second linearisation would subtract it again)", node=c, stmt=f"{last_attr(c)} on a copy")
-    ops = [c for c in walk_body(h) if isinstance(c, ast.Call) and last_attr(c) == "shift_identity"]
-    ctx.ob("6.5-identity", con_c, len(ops) == 1, "operator Jacobians must be shifted by minus the identity", node=(ops or [h])[0], stmt="operator: shift_identity()")
-    si = ctx.index.method(JOP, "JacobianOperator", "shift_identity")
-    rets = [s for s in stmts_of(si) if isinstance(s, ast.Return)]
-    ok = len(rets) == 1 and isinstance(rets[0].value, ast.BinOp) and isinstance(rets[0].value.op, ast.Sub if want == -1 else ast.Add) and dotted(rets[0].value.left) == "self" and isinstance(rets[0].value.right, ast.Call) and "Identity" in (dotted(rets[0].value.right.func) or "")
-    ctx.ob("6.5-identity", cname(JOP, "JacobianOperator", "shift_identity"), ok, "shift_identity must return self - Identity", node=(rets or [si])[0])
-    eyes = [s for s in stmts_of(h) if isinstance(s, ast.Assign) and any(isinstance(c, ast.Call) and last_attr(c) in ("eye", "identity") for c in ast.walk(s.value))]
-    ok = len(eyes) == 1 and isinstance(eyes[0].value, ast.UnaryOp) and isinstance(eyes[0].value.op, ast.USub if want == -1 else ast.UAdd)
-    ctx.ob("6.5-identity", con_c, ok, "a missing diagonal block of the residual Jacobian is -I", node=(eyes or [h])[0], stmt="missing block: -eye")
-    # the -I terms only on residual rows of the same variable
-    for c in [*diag, *ops, *[e.value for e in eyes]]:
-        n = cfg.node_of(c)
-        lits = []
-        from gv.props.shared import conj_literals
-
-        for t, v in branch_conditions(cfg, n):
-            if v and cfg.kind[t] == "test":
-                lits += conj_literals(cfg.ast[t].test)
-        names = {norm_stmt(e) for pz, e in lits if pz}
-        ok = "is_residual" in names and ("function == variable" in names or "variable == function" in names)
-        ctx.ob("6.5-identity", con_c, ok, "the identity term belongs only to residual rows, on the block of the same variable", node=c, stmt=f"{norm_stmt(c, 40)} under is_residual and function == variable")
+    check_identity_blocks(ctx, "6.5", -1 if (s_a or 1) == 1 else 1)
     # d. right-hand side
     k = ctx.index.method(ASM, "JacobianAssembly", "compute_newton_step")
     con_d = cname(ASM, "JacobianAssembly", "compute_newton_step")
